@@ -874,6 +874,14 @@ def _line_map(base, cur):
                 del anchor[bi]
                 free_cs.discard(near[0])
                 moved += 1
+    # functions into which the change inserted code lines (new statements): their annotations may no longer fit
+    _line_map.restructured = []
+    for lo, hi, clo, chi in fn_pairs:
+        if lo < 0:
+            continue
+        ins = [c for c in range(clo, chi + 1) if c in free_cs and cs[c] not in ('', '{', '}') and not cur[c][0].strip().startswith('//')]
+        if ins:
+            _line_map.restructured.append((cur[clo][1], cur[chi][1], len(ins)))
     return bmap, anchor, changed, moved
 
 
@@ -884,6 +892,7 @@ def merge(olines, base, cur, relpath, overlay_name, fren=None):
     attribute lines that precede it) to wherever its image is; annotation lines of a vanished line go after the text that
     replaced it."""
     bmap, anchor, changed, moved = _line_map(base, cur)
+    restructured = list(_line_map.restructured)
     lost = []
     # T20: a consistent rename of a local identifier inside a function is carried over to that function's annotation lines
     renames = local_renames(base, cur, bmap)
@@ -981,7 +990,7 @@ def merge(olines, base, cur, relpath, overlay_name, fren=None):
         for ol in at.get(c, []):
             emit_ann(lead[id(ol)])
             emit_ann(trail[id(ol)])
-    info = {'changed_lines': changed, 'lost_rewrites': lost, 'annotation_lines_renamed': renamed, 'moved_lines': moved}
+    info = {'changed_lines': changed, 'lost_rewrites': lost, 'annotation_lines_renamed': renamed, 'moved_lines': moved, 'restructured_fns': restructured}
     return out, origin, info
 
 
@@ -1098,7 +1107,8 @@ def build_unit(overlay_path, base_root, repo_root, out_path, subst_tables=None, 
         origin.append(('A', name, j + 1))
         n_ann = sum(1 for o in or2 if o[0] == 'A')
         files.append({'file': rel, 'select': select, 'code_lines': len(cur), 'annotation_lines': n_ann,
-                      'changed_vs_base': info['changed_lines'], 'lost_rewrites': info['lost_rewrites'], 'annotation_lines_renamed': info.get('annotation_lines_renamed', 0), 'moved_lines': info.get('moved_lines', 0)})
+                      'changed_vs_base': info['changed_lines'], 'lost_rewrites': info['lost_rewrites'], 'annotation_lines_renamed': info.get('annotation_lines_renamed', 0), 'moved_lines': info.get('moved_lines', 0),
+                      'restructured_fns': info.get('restructured_fns', [])})
         # fidelity: the code lines emitted, with the rewrites undone, are exactly the current transformed text
         emitted_code = [t for t, o in zip(o2, or2) if o[0] == 'C']
         if len([1 for _ in cur]) > len(emitted_code) + sum(len(ol.extra or []) for ol in region if ol.kind == 'arm') + len(cur):
